@@ -13,6 +13,7 @@ PROPS = {
     "C01": "analysis.props.p_c01",
     "C04": "analysis.props.p_c04",
     "C06": "analysis.props.p_c06",
+    "C07": "analysis.props.p_c07",
     "C08": "analysis.props.p_c08",
     "C09": "analysis.props.p_c09",
     "C10": "analysis.props.p_c10",
